@@ -21,6 +21,9 @@ type SeqCase struct {
 	SegSize int  `json:"seg"`
 	Real    bool `json:"real,omitempty"`
 	Ops     []Op `json:"ops"`
+	// NoBarrier: do not wait for the background rotation after an append, so the next
+	// operation (a truncation, Close, a read) races with it. The outcome must be the same.
+	NoBarrier bool `json:"nobarrier,omitempty"`
 }
 
 var segSizes = []int{1, 40, 64, 128, 512, 4096, 1 << 20}
@@ -34,6 +37,30 @@ func genSeqCase(real bool, maxOps int) func(t *rapid.T) SeqCase {
 		for i := 0; i < n; i++ {
 			c.Ops = append(c.Ops, genOp(t, maxSize))
 		}
+		c.NoBarrier = rapid.IntRange(0, 9).Draw(t, "nobarrier") < 4
+		return c
+	}
+}
+
+// genRotationRace: small segments (almost every append seals the tail and queues a
+// rotation), never a barrier, and mostly append-then-truncate/reopen pairs.
+func genRotationRace(real bool) func(t *rapid.T) SeqCase {
+	return func(t *rapid.T) SeqCase {
+		c := SeqCase{Real: real, NoBarrier: true}
+		c.SegSize = rapid.SampledFrom([]int{1, 40, 64, 128, 256}).Draw(t, "seg")
+		n := rapid.IntRange(2, 14).Draw(t, "npairs")
+		for i := 0; i < n; i++ {
+			c.Ops = append(c.Ops, genAppend(t, 4, 300))
+			switch k := rapid.IntRange(0, 9).Draw(t, "then"); {
+			case k < 6:
+				c.Ops = append(c.Ops, Op{Kind: "del", Min: genPos(t, "min"), Max: genPos(t, "max")})
+			case k < 8:
+				c.Ops = append(c.Ops, Op{Kind: "reopen"})
+			default:
+				c.Ops = append(c.Ops, Op{Kind: "get", At: genPos(t, "at")})
+			}
+		}
+		c.Ops = append(c.Ops, Op{Kind: "reopen"}, Op{Kind: "reopen"})
 		return c
 	}
 }
@@ -102,7 +129,11 @@ func runSeq(c SeqCase) (res common.Result) {
 				return
 			}
 			e.m.Append(logs)
-			kit.Barrier(e.w)
+			if !c.NoBarrier {
+				kit.Barrier(e.w)
+			} else {
+				cls["op-races-with-rotation"] = true
+			}
 			if wasEmpty && logs[0].Index != 1 {
 				cls["append-empty-nonone"] = true
 			}
@@ -201,6 +232,12 @@ func runSeq(c SeqCase) (res common.Result) {
 
 func TestC05Sim(t *testing.T) {
 	common.Run(t, "C05", "C05Sim", genSeqCase(false, 40), runSeq)
+}
+
+// TestC04RotationRace / TestC05RotationRace: truncations, reopens and reads issued right after
+// a segment-filling append, while the rotation it queued may still be pending.
+func TestC04RotationRace(t *testing.T) {
+	common.Run(t, "C04", "C04RotationRace", genRotationRace(false), runSeq)
 }
 
 func TestC05Real(t *testing.T) {
